@@ -203,6 +203,33 @@ def neg (a : NumRepr) : Res :=
     else general
   | _ => general
 
+/-! ## Filters that do integer arithmetic (`minijinja/src/filters.rs`) -/
+
+/-- `filters::abs` on an integer: unsigned values are returned as they are; `i64` uses
+    `checked_abs` and widens `i64::MIN` (`Value::from((x as i128).abs())`); `i128` uses
+    `checked_abs` and fails on `i128::MIN` ("overflow on abs") -/
+def absFilter : NumRepr → Res
+  | .u64 n => .ok (.u64 n)
+  | .u128 n => .ok (.u128 n)
+  | .i64 x =>
+    if x = -9223372036854775808 then .ok (.i128 9223372036854775808)
+    else .ok (.i64 (if x < 0 then -x else x))
+  | .i128 x => if x = minI128 then .err else .ok (.i128 (if x < 0 then -x else x))
+
+/-- `filters::int` and `filters::round` on an integer: `Ok(value.clone())` -/
+def intFilter (a : NumRepr) : Res := .ok a
+
+/-- the loop of `filters::sum`: `rv = ops::add(&rv, &value)?` -/
+def sumFrom (acc : NumRepr) : List NumRepr → Res
+  | [] => .ok acc
+  | x :: xs =>
+    match add acc x with
+    | .ok r => sumFrom r xs
+    | .err => .err
+
+/-- `filters::sum` over integers, starting from `Value::from(0)` (an `I64`) -/
+def sumFilter (xs : List NumRepr) : Res := sumFrom (.i64 0) xs
+
 /-- the six binary integer operators -/
 inductive Op where
   | add | sub | mul | floordiv | rem | pow
